@@ -65,7 +65,7 @@ func c20NewEnvWith(wrap func(samlidp.Store) samlidp.Store) *c20Env {
 	must(e.store.Put("/users/alice", samlidp.User{Name: "alice", HashedPassword: c20Hash, Email: "alice@example.com", Groups: []string{"g1"}}))
 	must(e.store.Put("/users/bob", samlidp.User{Name: "bob", HashedPassword: c20Hash, Email: "bob@example.com"}))
 	md := saml.EntityDescriptor{}
-	if err := xmlUnmarshalStrict(spMetaXML(c20SP1, c20ACS1, false), &md); err != nil {
+	if err := xmlUnmarshalStrict(spMetaXML(c20SP1, c20ACS1, true), &md); err != nil { // with an encryption certificate, folded as metadata files have it
 		panic(err)
 	}
 	must(e.store.Put("/services/s1", samlidp.Service{Name: "s1", Metadata: md}))
